@@ -9,8 +9,11 @@ package c13
 import (
 	"encoding/json"
 	"fmt"
+	"io"
+	"log"
 	"os"
 	"strings"
+	"sync"
 
 	"verif/internal/vrt"
 )
@@ -455,6 +458,8 @@ func randomOdd(seed int64, i int) scenario {
 	return sc
 }
 
+var discardLog sync.Once
+
 func run(c vrt.Case) vrt.Obs {
 	var sc scenario
 	vrt.Params(c, &sc)
@@ -468,6 +473,15 @@ func run(c vrt.Case) vrt.Obs {
 		os.Setenv("AGWPE_REVERSE_TO_FROM", "1")
 		defer os.Unsetenv("AGWPE_REVERSE_TO_FROM")
 		o.Count("scenarios_with_AGWPE_REVERSE_TO_FROM", 1)
+	}
+	if sc.Seed%4 == 2 {
+		// the package's debug log (what a user switches on to look into a problem): looking must not change what happens.
+		// The log text itself is discarded.
+		// (not io.Discard itself: the log package then skips the formatting, which is the part that looks at the frames)
+		discardLog.Do(func() { log.SetOutput(struct{ io.Writer }{io.Discard}) })
+		os.Setenv("AGWPE_DEBUG", "1")
+		defer os.Unsetenv("AGWPE_DEBUG")
+		o.Count("scenarios_with_AGWPE_DEBUG", 1)
 	}
 	e.guard(e.run)
 	e.rootCause()
